@@ -22,11 +22,14 @@ ASSUMPTIONS = [
     "decisions fall within 1e-6 of a border are excluded from the model comparison (not from the oracle)",
     "the packet-data-rate limiter (annex B.2) is not modelled; histories stay below its threshold",
     "flood termination is checked on the implementation in 3-5 station line/mesh networks; the theorem gives RHL-1 per hop",
+    "secured reception (Model/RouterSecured.v): the verify service is an oracle returning the plain message; the harness uses a "
+    "pass-through verify service (secured message = plain message) and gives the model the unsecured equivalent of each packet",
 ]
 EXPLANATION = ("theorems: duplicate rejected while fewer than DPL-length other numbers were accepted (any history), a rejected "
                "duplicate is neither delivered nor forwarded (6 packet types), own packets ignored, every forwarded copy has "
                "RHL-1 and none for RHL 0/1 (any frame/state), CBF buffered copy dropped on duplicate and sent at most once, DE "
-               "PV refreshed only by newer; correspondence of single-station histories + multi-station floods on real routers")
+               "PV refreshed only by newer; secured packets: full clause refuted (KF-C06-1), actual behaviour proved; correspondence of "
+               "single-station histories (unsecured and secured branch) + multi-station floods on real routers")
 
 M32 = 2 ** 32
 MH = ("tsb", "gbc", "gac", "guc", "lsreq", "lsrep")
@@ -37,6 +40,10 @@ def tst_newer(a, b):
     return 0 < d <= 2 ** 31
 
 
+def _addr_of(b: bytes):
+    return ((b[0] >> 7) & 1, (b[0] >> 2) & 31, int.from_bytes(b[2:8], "big"))
+
+
 def oracle_history(ctx, st, events, impl):
     L = st.params["dpl_len"]
     me = st.mid
@@ -44,15 +51,20 @@ def oracle_history(ctx, st, events, impl):
     buffered = {}      # cbf key -> received packet
     prev = None
     for idx, (ev, obs) in enumerate(zip(events, impl)):
-        inp = {"event_index": idx, "event": rs._ev_repr({k: v for k, v in ev.items() if k != "dests"}),
-               "history_tail": [rs._ev_repr({k: v for k, v in e.items() if k not in ("dests", "pkt")}) for e in events[max(0, idx - 8):idx]]}
+        inp = {"event_index": idx, "event": rs._ev_repr({k: v for k, v in ev.items() if k not in ("dests", "model_pkt")}),
+               "history_tail": [rs._ev_repr({k: v for k, v in e.items() if k not in ("dests", "pkt", "model_pkt")}) for e in events[max(0, idx - 8):idx]]}
         table = {tuple(e["addr"]) for e in obs["state"]["loct"]}
         if ev["ev"] == "cbf":
             key = tuple(ev["key"])
             if key in buffered:
                 pkt = buffered.pop(key)
-                want = pkt[:3] + bytes([pkt[3] - 1]) + pkt[4:]
-                if obs["sent"] != [want]:
+                want = pkt[:3] + bytes([(pkt[3] - 1) % 256]) + pkt[4:]
+                got = list(obs["sent"])
+                if len(got) == 1 and pkt[0] == 0x12 and got[0] == b"\x11" + want[1:]:
+                    ctx.property_failure("secured_forwarded_without_envelope", inp, "the copy of a SECURED packet sent at CBF "
+                                         "timer expiry left as an unsecured packet (next header 1 instead of 2)",
+                                         [want.hex()], [p.hex() for p in got])
+                elif got != [want]:
                     ctx.property_failure("cbf_send", inp, "the packet sent at CBF timer expiry is not the buffered packet "
                                          "with RHL - 1 (exactly once)", [want.hex()], [p.hex() for p in obs["sent"]])
             elif obs["sent"]:
@@ -69,9 +81,11 @@ def oracle_history(ctx, st, events, impl):
         pkt = ev["pkt"]
         fwd = [p for p in obs["sent"] if len(p) > 20 and _so_mid(p) == src[2]]
         if src[2] == me:
-            if obs["inds"] or obs["sent"]:
-                ctx.property_failure("own_packet", inp, "a packet bearing the station's own address was delivered or forwarded",
-                                     None, {"inds": len(obs["inds"]), "sent": len(obs["sent"])})
+            own_cbf = [k for k in obs["state"]["cbf"] if k[2] == me]
+            if obs["inds"] or obs["sent"] or own_cbf:
+                ctx.property_failure("own_packet", inp, "a packet bearing the station's own address was delivered, forwarded "
+                                     "or buffered for forwarding", None,
+                                     {"inds": len(obs["inds"]), "sent": len(obs["sent"]), "cbf": own_cbf})
             prev = obs
             continue
         valid = ev["rhl"] <= ev["mhl"]
@@ -81,20 +95,40 @@ def oracle_history(ctx, st, events, impl):
                 valid = False
         # forwarded copies
         for p in fwd:
-            ok = len(p) == len(pkt) and p[:3] == pkt[:3] and p[3] == pkt[3] - 1
-            body_same = p[4:] == pkt[4:]
+            ref = pkt
+            if ev.get("secured") and pkt[0] == 0x12 and p[:1] == b"\x11":
+                ctx.property_failure("secured_forwarded_without_envelope", inp, "a SECURED packet was forwarded as an unsecured "
+                                     "packet: next header 1 instead of 2, followed by the verified plain message instead of the "
+                                     "received secured message", pkt[:4].hex(), p[:4].hex())
+                ref = b"\x11" + pkt[1:]       # everything else is still examined
+            ok = len(p) == len(ref) and p[:3] == ref[:3] and p[3] == ref[3] - 1
+            body_same = p[4:] == ref[4:]
             if ok and not body_same and ev["kind"] in ("guc", "lsrep"):
-                # only the destination position vector (octets 40..59) may differ, and only towards a newer timestamp
-                same_else = p[4:40] == pkt[4:40] and p[60:] == pkt[60:] and p[40:48] == pkt[40:48]
-                old_t, new_t = int.from_bytes(pkt[48:52], "big"), int.from_bytes(p[48:52], "big")
-                body_same = same_else and tst_newer(new_t, old_t)
+                # only the destination position vector (octets 40..59) may differ: it is then the position vector the
+                # location table holds for the destination, which is a neighbour, and its timestamp is strictly newer
+                same_else = p[4:40] == ref[4:40] and p[60:] == ref[60:] and p[40:48] == ref[40:48]
+                old_t = int.from_bytes(ref[48:52], "big")
+                ent = next((e for e in obs["state"]["loct"] if tuple(e["addr"]) == _addr_of(ref[40:48])), None)
+                want_de = None
+                if ent is not None and ent["set"] and ent["nb"] and tst_newer(ent["pv"][3], old_t):
+                    want_de = stack.pack([(32, ent["pv"][3]), (32, ent["pv"][4]), (32, ent["pv"][5])])
+                body_same = same_else and want_de is not None and p[48:60] == want_de
+                ctx.count(1, "forward_with_refreshed_de_pv")
             if not (ok and body_same):
                 ctx.property_failure("forwarded_copy", inp, "forwarded copy differs from the received packet in more than "
-                                     "RHL - 1 (and a newer DE PV)", pkt.hex(), p.hex())
+                                     "RHL - 1 (and a destination position vector refreshed from a newer location table entry "
+                                     "of a neighbour)", ref.hex(), p.hex())
         if fwd and pkt[3] <= 1:
             ctx.property_failure("forward_rhl_le_1", inp, "a packet received with hop limit 0 or 1 was forwarded", [], [p.hex() for p in fwd])
         if len(fwd) > 1:
             ctx.property_failure("forward_twice", inp, "one received packet was forwarded more than once", 1, len(fwd))
+        # an entry whose lifetime had run out when the packet arrived is not re-used (whether or not a purge has removed
+        # it yet): the duplicate window of that source starts afresh
+        pe = next((e for e in (prev["state"]["loct"] if prev else []) if tuple(e["addr"]) == src), None)
+        if pe is not None and pe["set"]:
+            age = ((ev["now"] - pe["pv"][3] + 2 ** 31) % M32) - 2 ** 31
+            if age > st.params["life_ms"]:
+                ring.pop(src, None)
         if ev["kind"] in MH and valid:
             r = ring.setdefault(src, [])
             key = src + (ev["sn"],)
@@ -114,9 +148,17 @@ def oracle_history(ctx, st, events, impl):
                 r.append(ev["sn"])
                 now_cbf = [tuple(k) for k in obs["state"]["cbf"]]
                 if key in now_cbf:
-                    buffered[key] = pkt
+                    if key not in buffered:
+                        if pkt[3] <= 1:
+                            ctx.property_failure("cbf_buffered_rhl_le_1", inp, "a packet received with hop limit 0 or 1 was put "
+                                                 "into the CBF buffer for a later re-broadcast", [], [list(key)])
+                        buffered[key] = pkt
+                    # else: the copy of an earlier reception (whose number has left the duplicate list) is still waiting;
+                    # the code never replaces a waiting copy - it keeps it (this packet is not forwarded) or drops it
                 elif key in buffered:
                     buffered.pop(key)   # still-buffered key re-accepted after leaving the window: treated as duplicate
+                if len(obs["inds"]) > 1:
+                    ctx.property_failure("delivered_twice", inp, "one received packet was delivered more than once", 1, len(obs["inds"]))
                 ctx.nontriv(("c06", ev["kind"], src, ev["sn"], pkt[3], bool(fwd), bool(obs["inds"])))
             if src not in table:
                 ring.pop(src, None)
@@ -132,37 +174,102 @@ def _so_mid(p: bytes) -> int:
     return int.from_bytes(p[off + 2:off + 8], "big")
 
 
-def histories(ctx, n_hist, n_events, wrap=False):
+ALL_KINDS = ["beacon", "shb", "tsb", "gbc", "gac", "guc", "lsreq", "lsrep"]
+
+
+class PassVerify:
+    """stands in for the VerifyService where only the router's handling of a secured packet is examined: every
+    'secured message' verifies and IS its plain message (Common Header + Extended Header + payload)"""
+
+    def verify(self, request):
+        from flexstack.security.sn_sap import SNVERIFYConfirm, ReportVerify
+        return SNVERIFYConfirm(report=ReportVerify.SUCCESS, certificate_id=b"", its_aid_length=0, its_aid=b"",
+                               permissions=b"", plain_message=request.message)
+
+
+def histories(ctx, n_hist, n_events, wrap=False, secured=False):
     """wrap: every source starts 1-4 packets before its sequence number wraps, so that SN 65535, 0 and 1 are sent - and
-    replayed - in every history"""
+    replayed - in every history.
+    secured: the station has a (pass-through) verify service and most packets arrive as secured packets (Basic Header
+    NH = 2); their duplicates arrive secured or not.  The model is given the unsecured equivalent (what the verify service
+    hands to the common-header stage), so the whole history is still compared with it."""
     for it in range(n_hist):
         ego = ctx.rng.choice([(413800000, 21100000), (-338688000, 1512093000), (-100, -100)])
         rs.VCLOCK.set_ms(1_700_000_000_000 + ctx.rng.randrange(0, 10 ** 9))
+        ls_max = ctx.rng.choice([10, 10, 0, 1, 2])
         st = rs.Station(area_alg=ctx.rng.choice(["CBF", "CBF", "SIMPLE", "UNSPECIFIED"]), dpl_len=ctx.rng.choice([1, 2, 8, 8]),
-                        ego=ego, life_s=ctx.rng.choice([20, 20, 3]))
+                        ego=ego, life_s=ctx.rng.choice([20, 20, 3]), mobile=ctx.rng.random() < 0.7, ls_max=ls_max)
+        if secured:
+            st.router.verify_service = PassVerify()
         mix = {"beacon": 2, "shb": 1, "tsb": 4, "gbc": 6, "gac": 3, "guc": 4, "lsreq": 2, "lsrep": 2, "dup": 9, "tick": 3,
-               "req_guc": 1, "ls": 0, "cbf": 4, "req_shb": 0, "req_geo": 1, "ego": 0}
-        sc = rs.Scenario(ctx.rng, st, n_sources=ctx.rng.choice([2, 3, 4]), mix=mix)
+               "req_guc": 1, "ls": 0 if ls_max == 10 else 2, "cbf": 4, "req_shb": 0, "req_geo": 1, "ego": 0}
+        # rich: speed / heading / mobility flag / offload bit / lifetime code / station type / M bit of the sources vary
+        sc = rs.Scenario(ctx.rng, st, n_sources=ctx.rng.choice([2, 3, 4]), mix=mix, rich=True)
+        # received hop limits: the ends of the range and a value of the whole range in every history
+        sc.rhl_values = [0, 1, 1, 2, 2, ctx.rng.choice([3, 127, 128, 254]), ctx.rng.randrange(256), 255]
         if wrap:
             for src in sc.sources:
                 src.sn = 65535 - ctx.rng.randrange(0, 4)
         evs = sc.build(n_events)
         for k in range(len(evs)):
-            if evs[k]["ev"] == "rx" and ctx.rng.random() < 0.03:
+            if evs[k]["ev"] == "rx" and ctx.rng.random() < 0.04:
+                # our own address as the source: every packet type, single-hop ones included; a share with our MID under
+                # another station type / M bit (the link-layer address identifies the station: GNAddress.__eq__)
                 me = rs.Source(ctx.rng, 99, ego)
-                me.addr = (0, st.st, st.mid)
+                me.addr = (0, st.st, st.mid) if ctx.rng.random() < 0.6 else (ctx.rng.choice([0, 1]), ctx.rng.randrange(13), st.mid)
                 st.positions.update(me.pos)
                 sc.now = evs[k]["now"]
-                evs[k] = sc.rx_event(ctx.rng.choice(["tsb", "gbc", "gac", "guc", "lsreq", "lsrep"]), src=me)
+                evs[k] = sc.rx_event(ctx.rng.choice(ALL_KINDS), src=me)
+                evs[k]["own"] = True
+        if secured:
+            for e in evs:
+                if e["ev"] == "rx" and ctx.rng.random() < 0.7:
+                    e["model_pkt"] = e["pkt"]
+                    e["pkt"] = bytes([(e["pkt"][0] & 0xF0) | 2]) + e["pkt"][1:]
+                    e["secured"] = True
         impl, mtrace, skipped = rs.run_history(ctx, st, evs)
         oracle_history(ctx, st, evs, impl)
         for ev, obs in zip(evs, impl):
-            ctx.count(1, "ev_" + (ev.get("kind") or ev["ev"]) + ("_dup" if ev.get("dup_of") else ""))
+            ctx.count(1, "ev_" + (ev.get("kind") or ev["ev"]) + ("_dup" if ev.get("dup_of") else "")
+                      + ("_own_address" if ev.get("own") else "") + ("_secured" if ev.get("secured") else ""))
             if obs["sent"]:
                 ctx.count(1, "with_transmission")
         if it == 0:
             e0 = next(e for e in evs if e["ev"] == "rx" and e["kind"] in MH)
-            ctx.sample({"event": rs._ev_repr({k: v for k, v in e0.items() if k != "dests"})})
+            ctx.sample({"event": rs._ev_repr({k: v for k, v in e0.items() if k not in ("dests", "model_pkt")})})
+
+
+def dpl_windows(ctx, lengths):
+    """the ends of the duplicate-detection window, for every packet type and list length L: a packet is replayed after
+    exactly L - 1 other sequence numbers of its source were accepted (still a duplicate: neither delivered nor forwarded)
+    and again after exactly L (it has left the window)"""
+    for L in lengths:
+        for kind in MH:
+            rs.VCLOCK.set_ms(1_700_000_000_000 + ctx.rng.randrange(0, 10 ** 9))
+            st = rs.Station(area_alg=ctx.rng.choice(["CBF", "SIMPLE"]), dpl_len=L, ego=(413800000, 21100000))
+            sc = rs.Scenario(ctx.rng, st, n_sources=2, rich=True)
+            S, N = sc.sources
+            sn0 = ctx.rng.choice([0, 1, 65535, 65535 - L, ctx.rng.randrange(65536)])
+            me_de = (sc.me, (sc.now - 50) % 2 ** 32, st.ego[4], st.ego[5])
+            evs = [sc.rx_event("beacon", src=N, rhl=1, mhl=1)]
+            first = sc.rx_event(kind, src=S, sn=sn0, rhl=3, mhl=5, scf=0, de=me_de if ctx.rng.random() < 0.5 else None)
+            evs.append(first)
+
+            def replay():
+                e = dict(first)
+                e["now"], e["dup_of"] = sc.now, True
+                return e
+            for j in range(1, L):
+                evs.append(sc.rx_event(ctx.rng.choice(MH), src=S, sn=(sn0 + j) % 65536, rhl=3, mhl=5))
+                sc.now += 1
+                evs.append({"ev": "tick", "ms": 1})
+            evs.append(replay())                      # L - 1 others accepted: inside the window
+            evs.append(sc.rx_event(ctx.rng.choice(MH), src=S, sn=(sn0 + L) % 65536, rhl=3, mhl=5))
+            evs.append(replay())                      # L others accepted: outside
+            evs.append(replay())                      # and once accepted again, a duplicate again
+            impl, mtrace, skipped = rs.run_history(ctx, st, evs)
+            oracle_history(ctx, st, evs, impl)
+            ctx.count(1, "dpl_window_L%d_%s" % (L, kind))
 
 
 # --------------------------------------------------------------------------- floods in a network of real routers
@@ -236,29 +343,133 @@ def flood(ctx, n_nodes, topo, alg, hop_limit):
     return transmissions
 
 
+def flood_injected(ctx, n_nodes, topo, alg, kind, rhl):
+    """a multi-hop packet of a station X outside the network is heard by node 0 and spreads: TSB, LS request, GeoUnicast
+    and LS reply towards the last node, GeoBroadcast / GeoAnycast towards an area around the last node (the nodes before
+    it are outside: non-area forwarding, Annex D).  Every station transmits the packet at most once, delivers it at most
+    once, and the spreading stops."""
+    from flexstack.geonet.mib import AreaForwardingAlgorithm
+    stack.FakeTimer.reset()
+    rs.VCLOCK.set_ms(1_700_000_700_000)
+    base = (413800000, 21100000)
+    nodes = []
+    for i in range(n_nodes):
+        ll = stack.CaptureLL()
+        r = stack.make_router(ll, local_mid=0x0A0B0C0D3000 + i, mib_kw=dict(
+            itsGnAreaForwardingAlgorithm=getattr(AreaForwardingAlgorithm, alg)))
+        stack.set_ego(r, base[0] + i * 900, base[1] + i * 1200)
+        inds = []
+        r.register_indication_callback(inds.append)
+        nodes.append({"r": r, "ll": ll, "inds": inds, "fwd": {}})
+    if topo == "line":
+        links = {i: [j for j in (i - 1, i + 1) if 0 <= j < n_nodes] for i in range(n_nodes)}
+    else:
+        links = {i: [j for j in range(n_nodes) if j != i] for i in range(n_nodes)}
+    for i in range(n_nodes):
+        nodes[i]["r"].gn_data_request_beacon()
+        b = nodes[i]["ll"].sent.pop()
+        for j in links[i]:
+            nodes[j]["r"].gn_data_indicate(b)
+    X = (0, 5, 0x0A0B0C0D3FFF)
+    xpos = (base[0] - 900, base[1] - 1200)
+    tst = rs.VCLOCK.its_ms() % 2 ** 32
+    last = n_nodes - 1
+    lpos = (base[0] + last * 900, base[1] + last * 1200)
+    de = ((0, 5, 0x0A0B0C0D3000 + last), tst, lpos[0], lpos[1])
+    sn = ctx.rng.choice([0, 1, 65535, ctx.rng.randrange(65536)])
+    payload = b"\x07\xd2\x00\x00inj"
+    if kind == "tsb":
+        pkt = stack.tsb_bytes(X, sn, tst, xpos[0], xpos[1], payload, rhl=rhl, mhl=rhl)
+    elif kind == "lsreq":
+        pkt = stack.ls_request_bytes(X, sn, tst, xpos[0], xpos[1], (0, 5, 0x0A0B0C0D3EEE), rhl=rhl, mhl=rhl)
+    elif kind in ("gbc", "gac"):
+        pkt = stack.gbc_bytes(X, sn, tst, xpos[0], xpos[1], (lpos[0], lpos[1], 20, 20, 0), payload,
+                              ht=4 if kind == "gbc" else 3, hst=0, rhl=rhl, mhl=rhl)
+    elif kind == "guc":
+        pkt = stack.guc_bytes(X, sn, tst, xpos[0], xpos[1], de, payload, rhl=rhl, mhl=rhl)
+    else:
+        pkt = stack.ls_reply_bytes(X, sn, tst, xpos[0], xpos[1], de, rhl=rhl, mhl=rhl)
+    inp = {"op": "flood_injected", "kind": kind, "nodes": n_nodes, "topology": topo, "algorithm": alg, "rhl": rhl,
+           "packet": pkt.hex()}
+    nodes[0]["r"].gn_data_indicate(pkt)
+    transmissions, steps, queue = 0, 0, []
+    while steps < 5000:
+        steps += 1
+        for i, n in enumerate(nodes):
+            while n["ll"].sent:
+                queue.append((i, n["ll"].sent.pop(0)))
+        if not queue:
+            pend = stack.FakeTimer.pending()
+            if not pend:
+                break
+            t = min(pend, key=lambda x: (x.due, x.id))
+            stack.VCLOCK.ms = max(stack.VCLOCK.ms, t.due)
+            t.fire()
+            continue
+        i, p = queue.pop(0)
+        if p[5] >> 4 == 1:
+            continue                      # beacons are not part of the flood
+        transmissions += 1
+        key = (p[16:24], p[12:14], p[5])
+        nodes[i]["fwd"][key] = nodes[i]["fwd"].get(key, 0) + 1
+        if nodes[i]["fwd"][key] > 1:
+            ctx.property_failure("flood_forward_twice", inp, "a station transmitted the same (source, SN) twice", 1, nodes[i]["fwd"][key])
+        if p[3] >= pkt[3] or p[4:12] != pkt[4:12] or p[12:40] != pkt[12:40]:
+            ctx.property_failure("flood_copy_changed", inp, "a copy travelling through the network does not carry the original "
+                                 "headers with a lower hop limit", pkt.hex(), p.hex())
+        for j in links[i]:
+            nodes[j]["r"].gn_data_indicate(p)
+    ctx.count(1, "flood_injected_" + kind + "_" + topo + "_" + alg)
+    if steps >= 5000:
+        ctx.property_failure("flood_no_termination", inp, "the flood did not terminate", "drains", transmissions)
+    if transmissions > n_nodes:
+        ctx.property_failure("flood_too_many", inp, "more transmissions than stations for one packet", n_nodes, transmissions)
+    if rhl <= 1 and transmissions:
+        ctx.property_failure("forward_rhl_le_1", inp, "a packet received with hop limit 0 or 1 was forwarded", 0, transmissions)
+    for j in range(n_nodes):
+        if len(nodes[j]["inds"]) > 1:
+            ctx.property_failure("flood_delivered_twice", inp, "a station delivered the packet more than once", 1, len(nodes[j]["inds"]))
+    ctx.nontriv(("flood_injected", kind, n_nodes, topo, alg, rhl, transmissions, tuple(len(n["inds"]) for n in nodes)))
+    return transmissions
+
+
 def run(ctx):
     ctx.rule = ("seeded single-station histories (fresh packets, exact duplicates, replays with another hop count, own-address "
-                "packets of TSB/GBC/GAC/GUC/LS request/LS reply; RHL over {0,1,2,3,10,255}; DPL lengths 1/2/8; SIMPLE, "
-                "UNSPECIFIED and CBF with harness-chosen timer expiry points) checked against the property clauses with an "
-                "independent duplicate-window bookkeeping and compared event by event with the model; floods in line and mesh "
-                "networks of 3-5 real routers; non-trivial = a fresh multi-hop packet was processed; distinct by "
-                "(kind, source, sn, rhl, forwarded?, delivered?)")
+                "packets of every type incl. the own MID under another station type; TSB/GBC/GAC/GUC/LS request/LS reply with "
+                "speed, heading, mobility flag, offload bit, lifetime code, station type and M bit varied; RHL over "
+                "{0,1,2,127,128,254,255,random}; DPL lengths 1/2/8; SIMPLE, UNSPECIFIED and CBF with harness-chosen timer expiry "
+                "points; LS retransmission limits 0/1/2/10; histories with every source wrapping its sequence number; "
+                "histories received through the secured branch of the router) checked against the property clauses with an "
+                "independent duplicate-window bookkeeping and compared event by event with the model; the two ends of the "
+                "duplicate window for every type and length; floods in line and mesh networks of 3-5 real routers, "
+                "originated (GBC) and injected (TSB, LS, GUC, GBC/GAC towards a distant area); non-trivial = a fresh "
+                "multi-hop packet was processed; distinct by (kind, source, sn, rhl, forwarded?, delivered?)")
     rs.stack.patch_time()
+    inj = ("tsb", "lsreq", "gbc", "gac", "guc", "lsrep")
     if ctx.tier == "quick":
-        histories(ctx, 100, 90)
+        histories(ctx, 90, 90)
         histories(ctx, 14, 70, wrap=True)
+        histories(ctx, 14, 70, secured=True)
+        dpl_windows(ctx, (1, 2, 3, 8))
         for n in (3, 5):
             for topo in ("line", "mesh"):
                 for alg in ("SIMPLE", "CBF"):
                     flood(ctx, n, topo, alg, ctx.rng.choice([2, 3, 10]))
+                    for kind in inj:
+                        flood_injected(ctx, n, topo, alg, kind, ctx.rng.choice([0, 1, 2, 3, 10, 255]))
     else:
         histories(ctx, 600, 160)
         histories(ctx, 80, 120, wrap=True)
+        histories(ctx, 100, 120, secured=True)
+        histories(ctx, 30, 120, wrap=True, secured=True)
+        dpl_windows(ctx, (1, 2, 3, 4, 8, 16))
         for n in (3, 4, 5):
             for topo in ("line", "mesh"):
                 for alg in ("SIMPLE", "CBF", "UNSPECIFIED"):
                     for hl in (0, 1, 2, 3, 10, 255):
                         flood(ctx, n, topo, alg, hl)
+                        for kind in inj:
+                            flood_injected(ctx, n, topo, alg, kind, hl)
     ctx.exhaustive = False
 
 
